@@ -45,7 +45,12 @@ struct Value {
         // arguments until the brackets balance and hand the whole "[...]" expression to Value
         auto bracket_depth = [](const std::string& s) {
             int depth = 0;
-            for (char c : s) depth += (c == '[') - (c == ']');
+            bool comment = false; // (a comment runs to the end of its line: brackets in it are text, not structure)
+            for (char c : s) {
+                if (c == '\n' || c == '\r') comment = false;
+                else if (c == '#') comment = true;
+                if (!comment) depth += (c == '[') - (c == ']');
+            }
             return depth;
         };
         for (auto& v : args) {
@@ -99,6 +104,11 @@ struct Value {
                 size_t depth = 1;
                 while ((++i) <= args_len && depth > 0) {
                     ch = args_string[i];
+                    if (ch == '#') {
+                        // a comment runs to the end of its line: brackets in it are text, not structure
+                        while (i < args_len && args_string[i] != '\n' && args_string[i] != '\r') i++;
+                        continue;
+                    }
                     depth += (ch == '[') - (ch == ']');
                 }
                 if (depth > 0) {
